@@ -631,6 +631,45 @@ def rule_W1(ctx) -> None:
     rule_W1f(ctx, "W1")
 
 
+def rule_T8(ctx, rule: str = "T8") -> None:
+    """the encoding is computed from the message as it is now: every returning path of __bytes__ / SerializeToString runs the
+    writer (`self.dump(..)`, or bytes(self)) in this call.  A path that hands back bytes kept from an earlier call is stale after
+    any change that does not go through __setattr__ of this very object - an append to a repeated field, a store into a map,
+    an assignment inside a child"""
+    from ..sym import walk as _walk
+    m = model(ctx)
+    mod = m.mod
+    n = 0
+    for q in ("Message.__bytes__", "Message.SerializeToString"):
+        if not mod.has(q):
+            continue
+        fn = mod.func(q)
+        ctx.analysed(q)
+        paths = Interp(mod, fork_ifexp=True).run(fn)
+        ctx.count(len(paths))
+        bad = None
+        rets = 0
+        for p in paths:
+            if p.outcome != "return":
+                continue
+            rets += 1
+            wrote = any(e.kind == "call" and (dotted(e.data[1]) in ("self.dump", "self.__bytes__", "self.SerializeToString") or (dotted(e.data[1]) == "bytes" and e.data[2] == (N("self"),))) for e in p.events) or (
+                p.value is not None and any(t[0] == "call" and (dotted(t[1]) in ("self.dump", "self.__bytes__", "self.SerializeToString") or (dotted(t[1]) == "bytes" and t[2] == (N("self"),))) for t in _walk(p.value)))
+            if not wrote:
+                bad = bad or p
+        name = f"{q.split('.')[-1]}:encodes-current-state"
+        n += 1
+        if bad:
+            ctx.refuted(rule, name, show(bad.value)[:60] if bad.value else "no-writer", mod.loc(fn),
+                        f"on the path {bad.val_text()[:200]} {q.split('.')[-1]} returns {show(bad.value)[:80] if bad.value else None} without running the writer: bytes kept from an earlier call do not "
+                        "reflect changes made in place (list.append, map store, assignment inside a child) since then", "m = M(xs=[1]); bytes(m); m.xs.append(2); M().parse(bytes(m)) == m")
+        elif not rets:
+            ctx.inconclusive(rule, name, "no returning path", mod.loc(fn))
+        else:
+            ctx.proved(rule, name, mod.loc(fn), f"{rets} returning paths, each through the writer")
+    ctx.floor(rule, "encoder entry points", n, 1)
+
+
 def rule_W1f(ctx, rule: str = "N4") -> None:
     """the struct format of every fixed-width type is the reference encoder's: width, byte order and signedness (an unsigned
     type packed with a signed format raises for the upper half of its range and decodes it as negative numbers)"""
